@@ -72,14 +72,12 @@ class Acc:
 
     def violation(self, case, msg, **tags):
         self.nviol += 1
-        if len(self.violations) < self.MAXV:
-            self.violations.append({'case': jsonable(case), 'msg': msg, 'tags': jsonable(tags)})
-        else:
-            # keep counting per tag signature so known-finding counts stay right
-            pass
         key = json.dumps(jsonable(tags), sort_keys=True)
         d = self.extra.setdefault('_vtags', {})
         d[key] = d.get(key, 0) + 1
+        # keep a few witnesses of EVERY class (tag signature), so a new class is never crowded out by a frequent known one
+        if d[key] <= 3 and len(self.violations) < 40 * self.MAXV:
+            self.violations.append({'case': jsonable(case), 'msg': msg, 'tags': jsonable(tags)})
 
     def count(self, key, n=1):
         self.extra[key] = self.extra.get(key, 0) + n
